@@ -288,7 +288,7 @@ impl ReplDriver {
                     let len = p.r.len();
                     let s0 = self.rng.gen_range(0..len);
                     let e0 = self.rng.gen_range(s0 + 1..=len);
-                    let (mut probe, res) = Core::open("r", VDisk::from_images(p.r.disk.images()));
+                    let (mut probe, res) = Core::open("r", VDisk::from_images(p.r.images()));
                     if matches!(res, OpenResult::Ok) && probe.clear(s0, e0)["t"] == "ok" {
                         let op = Op::Clear(s0, e0);
                         self.plain_r(&mut p, &op);
@@ -444,7 +444,7 @@ impl ReplDriver {
                     return false;
                 }
                 if who == "r" {
-                    let (mut probe, res) = Core::open("r", VDisk::from_images(p.r.disk.images()));
+                    let (mut probe, res) = Core::open("r", VDisk::from_images(p.r.images()));
                     if !matches!(res, OpenResult::Ok) || probe.clear(s0, e0)["t"] != "ok" {
                         return false;
                     }
@@ -618,7 +618,7 @@ impl ReplDriver {
                 }
             }
             for (s0, e0) in [(100u64, page + 237), (page + 3, page + 5), (5u64, 10)] {
-                let (mut probe, res) = Core::open("r", VDisk::from_images(p.r.disk.images()));
+                let (mut probe, res) = Core::open("r", VDisk::from_images(p.r.images()));
                 if matches!(res, OpenResult::Ok) && probe.clear(s0, e0)["t"] == "ok" {
                     self.plain_r(&mut p, &Op::Clear(s0, e0));
                     self.rec().count("replica_clears", 1);
